@@ -397,6 +397,16 @@ def assemble(unit, canary=False, mutant=None, check_fp=True):
                 if it.kind == "struct":
                     # single-field tuple struct: `struct S<..>(T);` -> `struct S<..>(pub T);`
                     text = re.sub(r"^(pub struct \w+(?:<[^>]*>)?\()(?!pub )", r"\1pub ", text, count=1)
+            for e in it.edits:
+                # edits of a copied type definition (e.g. dropping a lifetime parameter the stand-in types do not have)
+                if e.get("re"):
+                    text, cnt = re.subn(e["from"], e["to"], text)
+                else:
+                    cnt = text.count(e["from"])
+                    text = text.replace(e["from"], e["to"])
+                if cnt < 1:
+                    raise Undecided(f"lost-anchor: {it.path}: edit anchor `{e['from']}` does not occur in the type definition")
+                A.edits.append({"item": it.id, "from": e["from"], "to": e["to"], "why": e["why"], "occurrences": cnt})
             info["sha256"] = hashlib.sha256(src[x["kw_start"]:x["end"]]).hexdigest()
             A.add(text + "\n", {"kind": "typedef", "item": it.id, "file": it.file, "tags": []})
             A.items.append(info)
